@@ -21,6 +21,7 @@ import (
 	"istio.io/istio/pkg/config/mesh/meshwatcher"
 	"istio.io/istio/pkg/config/protocol"
 	"istio.io/istio/pkg/config/schema/gvk"
+	"istio.io/istio/pkg/config/schema/kind"
 	"istio.io/istio/pkg/config/visibility"
 	"istio.io/istio/pkg/kube/krt"
 	"istio.io/istio/pkg/util/sets"
@@ -75,7 +76,87 @@ type drSpec struct {
 	host     string
 	exportTo []string
 	selector map[string]string // nil: no workloadSelector
-	subsets  []string
+	subsets  []subsetSpec
+	tp       *tpSpec // top-level trafficPolicy (nil: none)
+	backend  bool    // synthesized from a Gateway API backend policy (internal parents annotation)
+}
+
+// subsetSpec: a subset and the maxConnections of its own trafficPolicy (0: none).
+type subsetSpec struct {
+	name string
+	pool int
+}
+
+// tpSpec: connectionPool.tcp.maxConnections and loadBalancer.simple at destination level (0: unset)
+// and for one port (plPort 0: no port-level entry). The values identify the rule they were written in.
+type tpSpec struct {
+	pool, lb             int
+	plPort, plPool, plLB int
+}
+
+func encSubsets(l []subsetSpec) string {
+	if len(l) == 0 {
+		return "-"
+	}
+	o := make([]string, len(l))
+	for i, s := range l {
+		o[i] = wire.Enc(s.name)
+		if s.pool != 0 {
+			o[i] += "~" + strconv.Itoa(s.pool)
+		}
+	}
+	return strings.Join(o, ",")
+}
+
+func decSubsets(t string) []subsetSpec {
+	if t == "-" {
+		return nil
+	}
+	var out []subsetSpec
+	for _, it := range strings.Split(t, ",") {
+		a, b, _ := strings.Cut(it, "~")
+		n, _ := strconv.Atoi(b)
+		out = append(out, subsetSpec{wire.Dec(a), n})
+	}
+	return out
+}
+
+func num(n int) string {
+	if n == 0 {
+		return "-"
+	}
+	return strconv.Itoa(n)
+}
+
+// encTP: n | <pool>:<lb>:<plPort>/<plPool>/<plLB>:<backend>
+func encTP(tp *tpSpec, backend bool) string {
+	if tp == nil {
+		return "n:" + wire.B(backend)
+	}
+	return fmt.Sprintf("%s:%s:%s/%s/%s:%s", num(tp.pool), num(tp.lb), num(tp.plPort), num(tp.plPool), num(tp.plLB), wire.B(backend))
+}
+
+func decTP(t string) (*tpSpec, bool) {
+	f := strings.Split(t, ":")
+	at := func(s string) int {
+		if s == "-" {
+			return 0
+		}
+		n, _ := strconv.Atoi(s)
+		return n
+	}
+	if f[0] == "n" {
+		return nil, len(f) > 1 && f[1] == "1"
+	}
+	if len(f) != 4 {
+		return nil, false
+	}
+	pl := strings.Split(f[2], "/")
+	tp := &tpSpec{pool: at(f[0]), lb: at(f[1])}
+	if len(pl) == 3 {
+		tp.plPort, tp.plPool, tp.plLB = at(pl[0]), at(pl[1]), at(pl[2])
+	}
+	return tp, f[3] == "1"
 }
 
 type listenerSpec struct {
@@ -127,10 +208,13 @@ type world struct {
 	scs                         []sidecarSpec
 
 	// built
-	ps   *model.PushContext
-	env  *model.Environment
-	stop chan struct{}
-	byID map[string]*svcSpec
+	ps    *model.PushContext
+	store *model.FakeStore
+	reg   *sd
+	rev   int // revision marker of updated VirtualServices
+	env   *model.Environment
+	stop  chan struct{}
+	byID  map[string]*svcSpec
 
 	queries  [][]string // scope queries of the case (oracle)
 	deferred string     // a known-class failure, reported only when the case shows nothing else
@@ -437,7 +521,7 @@ func (v vsSpec) line() []string {
 
 func (d drSpec) line() []string {
 	return []string{"dr", wire.Enc(d.name), wire.Enc(d.ns), strconv.Itoa(d.ctime), wire.Enc(d.host), encItems(d.exportTo, ","),
-		encLabels(d.selector, d.selector == nil), encItems(d.subsets, ",")}
+		encLabels(d.selector, d.selector == nil), encSubsets(d.subsets), encTP(d.tp, d.backend)}
 }
 
 func (s sidecarSpec) line() []string {
@@ -497,13 +581,14 @@ func (w *world) apply(t []string) bool {
 	case t[0] == "vs" && len(t) == 10:
 		w.vss = append(w.vss, vsSpec{name: wire.Dec(t[1]), ns: wire.Dec(t[2]), ctime: atoi(t[3]), hosts: decItems(t[4], ","),
 			exportTo: decItems(t[5], ","), gateways: decItems(t[6], ","), gwSem: t[7] == "1", http: decHTTP(t[8]), tcp: decDests(t[9])})
-	case t[0] == "dr" && len(t) == 8:
+	case t[0] == "dr" && len(t) == 9:
 		sel, isNil := decLabels(t[6])
 		if isNil {
 			sel = nil
 		}
 		w.drs = append(w.drs, drSpec{name: wire.Dec(t[1]), ns: wire.Dec(t[2]), ctime: atoi(t[3]), host: wire.Dec(t[4]),
-			exportTo: decItems(t[5], ","), selector: sel, subsets: decItems(t[7], ",")})
+			exportTo: decItems(t[5], ","), selector: sel, subsets: decSubsets(t[7])})
+		w.drs[len(w.drs)-1].tp, w.drs[len(w.drs)-1].backend = decTP(t[8])
 	case t[0] == "sc" && len(t) == 6:
 		sel, isNil := decLabels(t[4])
 		if isNil {
@@ -633,11 +718,39 @@ func (d *drSpec) real() config.Config {
 	if d.selector != nil {
 		spec.WorkloadSelector = &typev1beta1.WorkloadSelector{MatchLabels: d.selector}
 	}
+	pool := func(n int) *networking.ConnectionPoolSettings {
+		if n == 0 {
+			return nil
+		}
+		return &networking.ConnectionPoolSettings{Tcp: &networking.ConnectionPoolSettings_TCPSettings{MaxConnections: int32(n)}}
+	}
+	lb := func(n int) *networking.LoadBalancerSettings {
+		if n == 0 {
+			return nil
+		}
+		return &networking.LoadBalancerSettings{LbPolicy: &networking.LoadBalancerSettings_Simple{
+			Simple: networking.LoadBalancerSettings_SimpleLB(n)}}
+	}
 	for _, sn := range d.subsets {
-		spec.Subsets = append(spec.Subsets, &networking.Subset{Name: sn, Labels: map[string]string{"version": sn}})
+		sub := &networking.Subset{Name: sn.name, Labels: map[string]string{"version": sn.name}}
+		if sn.pool != 0 {
+			sub.TrafficPolicy = &networking.TrafficPolicy{ConnectionPool: pool(sn.pool)}
+		}
+		spec.Subsets = append(spec.Subsets, sub)
+	}
+	if d.tp != nil {
+		spec.TrafficPolicy = &networking.TrafficPolicy{ConnectionPool: pool(d.tp.pool), LoadBalancer: lb(d.tp.lb)}
+		if d.tp.plPort != 0 {
+			spec.TrafficPolicy.PortLevelSettings = []*networking.TrafficPolicy_PortTrafficPolicy{{
+				Port: &networking.PortSelector{Number: uint32(d.tp.plPort)}, ConnectionPool: pool(d.tp.plPool), LoadBalancer: lb(d.tp.plLB)}}
+		}
+	}
+	var ann map[string]string
+	if d.backend {
+		ann = map[string]string{constants.InternalParentNames: "BackendTLSPolicy/x." + d.ns}
 	}
 	return config.Config{
-		Meta: config.Meta{GroupVersionKind: gvk.DestinationRule, Name: d.name, Namespace: d.ns,
+		Meta: config.Meta{GroupVersionKind: gvk.DestinationRule, Name: d.name, Namespace: d.ns, Annotations: ann,
 			CreationTimestamp: epoch.Add(time.Duration(d.ctime) * time.Second)},
 		Spec: spec,
 	}
@@ -796,6 +909,7 @@ func (w *world) build() {
 		}
 	}
 	env.ConfigStore = store
+	w.store, w.reg = store, d
 	w.stop = make(chan struct{})
 	env.VirtualServiceController = model.NewVirtualServiceController(store, model.VSControllerOptions{KrtDebugger: krt.GlobalDebugHandler}, env.Watcher)
 	go store.Run(w.stop)
@@ -807,31 +921,8 @@ func (w *world) build() {
 	if err := env.InitNetworksManager(model.NewEndpointIndexUpdater(env.EndpointIndex)); err != nil {
 		panic(err)
 	}
-	// one endpoint per (hostname, namespace) key and port name, with an address that identifies the key
-	for _, k := range w.keys() {
-		var eps []*model.IstioEndpoint
-		seen := map[string]bool{}
-		for i := range w.svcs {
-			sp := &w.svcs[i]
-			if sp.hostname != k[0] || sp.ns != k[1] {
-				continue
-			}
-			for _, p := range sp.ports {
-				if seen[p.name] {
-					continue
-				}
-				seen[p.name] = true
-				eps = append(eps, &model.IstioEndpoint{
-					Addresses:       []string{w.keyAddr(k[0], k[1])},
-					ServicePortName: p.name,
-					EndpointPort:    uint32(p.num),
-					Namespace:       k[1],
-					HostName:        k[0],
-				})
-			}
-		}
-		env.EndpointIndex.UpdateServiceEndpoints(model.ShardKey{Cluster: "c1", Provider: "External"}, k[0], k[1], eps, false)
-	}
+	w.env = env
+	w.registerEndpoints()
 	ps := model.NewPushContext()
 	ps.InitContext(env, nil, nil)
 	w.ps, w.env = ps, env
@@ -881,4 +972,196 @@ func (w *world) realVisibilityFor(ns string) model.ServiceVisibility {
 	}
 	m, _ := model.CompileServiceEntryVisibility(sev)
 	return m.VisibilityFor(w.mesh.nsLabels[ns])
+}
+
+// ---------------------------------------------------------------- incremental update
+//
+// update <declaration line> / delete <kind> <name> <namespace>: one object of the case changes (is replaced
+// by name, added, or removed), the change is applied to the real config store / registry, and the NEXT
+// PushContext is initialised incrementally from the current one: InitContext(env, old, pushReq) with the
+// changed key in ConfigsUpdated (updateContext reuses every index the key does not invalidate). The model
+// rebuilds from scratch: an incremental context must answer like a fresh one.
+
+func (w *world) update(t []string) string {
+	var key model.ConfigKey
+	del := t[0] == "delete"
+	decl := t[1:]
+	if del {
+		if len(t) != 4 {
+			return "bad-op"
+		}
+		decl = []string{t[1]}
+	}
+	name, ns := "", ""
+	if del {
+		name, ns = wire.Dec(t[2]), wire.Dec(t[3])
+	} else if len(decl) > 2 {
+		name, ns = wire.Dec(decl[1]), wire.Dec(decl[2])
+	}
+	switch decl[0] {
+	case "dr":
+		key = model.ConfigKey{Kind: kind.DestinationRule, Name: name, Namespace: ns}
+		var old bool
+		for i := range w.drs {
+			if w.drs[i].name == name && w.drs[i].ns == ns {
+				w.drs = append(w.drs[:i], w.drs[i+1:]...)
+				old = true
+				break
+			}
+		}
+		if del {
+			if old {
+				_ = w.store.Delete(gvk.DestinationRule, name, ns, nil)
+			}
+		} else {
+			if !w.apply(decl) {
+				return "bad-op"
+			}
+			c := w.drs[len(w.drs)-1].real()
+			if old {
+				_, _ = w.store.Update(c)
+			} else {
+				_, _ = w.store.Create(c)
+			}
+		}
+	case "sc":
+		key = model.ConfigKey{Kind: kind.Sidecar, Name: name, Namespace: ns}
+		var old bool
+		for i := range w.scs {
+			if w.scs[i].name == name && w.scs[i].ns == ns {
+				w.scs = append(w.scs[:i], w.scs[i+1:]...)
+				old = true
+				break
+			}
+		}
+		if del {
+			if old {
+				_ = w.store.Delete(gvk.Sidecar, name, ns, nil)
+			}
+		} else {
+			if !w.apply(decl) {
+				return "bad-op"
+			}
+			c := w.scs[len(w.scs)-1].real()
+			if old {
+				_, _ = w.store.Update(c)
+			} else {
+				_, _ = w.store.Create(c)
+			}
+		}
+	case "vs":
+		key = model.ConfigKey{Kind: kind.VirtualService, Name: name, Namespace: ns}
+		var old bool
+		for i := range w.vss {
+			if w.vss[i].name == name && w.vss[i].ns == ns {
+				w.vss = append(w.vss[:i], w.vss[i+1:]...)
+				old = true
+				break
+			}
+		}
+		w.rev++
+		marker := strconv.Itoa(w.rev)
+		if del {
+			if old {
+				_ = w.store.Delete(gvk.VirtualService, name, ns, nil)
+			}
+		} else {
+			if !w.apply(decl) {
+				return "bad-op"
+			}
+			c := w.vss[len(w.vss)-1].real()
+			if c.Annotations == nil {
+				c.Annotations = map[string]string{}
+			}
+			c.Annotations["verif/rev"] = marker
+			if old {
+				_, _ = w.store.Update(c)
+			} else {
+				_, _ = w.store.Create(c)
+			}
+		}
+		// the VirtualService controller (krt) digests the change asynchronously: wait until its merged view shows it
+		isDelegate := !del && len(w.vss[len(w.vss)-1].hosts) == 0
+		waitSynced(func() bool {
+			for _, mv := range w.env.VirtualServiceController.MergedVirtualServices() {
+				if mv.Name == name && mv.Namespace == ns {
+					return !del && !isDelegate && mv.Annotations["verif/rev"] == marker
+				}
+			}
+			return del || isDelegate
+		})
+		if isDelegate || del {
+			time.Sleep(2 * time.Millisecond) // roots referring to a delegate are re-merged after it
+		}
+	case "svc":
+		id := wire.Dec(decl[1])
+		if del {
+			id = wire.Dec(t[2])
+		}
+		for i := range w.svcs {
+			if w.svcs[i].id == id {
+				key = model.ConfigKey{Kind: kind.ServiceEntry, Name: w.svcs[i].hostname, Namespace: w.svcs[i].ns}
+				w.svcs = append(w.svcs[:i], w.svcs[i+1:]...)
+				break
+			}
+		}
+		if !del {
+			if !w.apply(decl) {
+				return "bad-op"
+			}
+			n := &w.svcs[len(w.svcs)-1]
+			key = model.ConfigKey{Kind: kind.ServiceEntry, Name: n.hostname, Namespace: n.ns}
+		}
+		w.byID = map[string]*svcSpec{}
+		w.reg.services = nil
+		for i := range w.svcs {
+			rs := w.svcs[i].real(i)
+			if w.svcs[i].vis == "a" {
+				rs.Attributes.Visibility = w.realVisibilityFor(w.svcs[i].ns)
+			}
+			w.reg.services = append(w.reg.services, rs)
+			w.byID[w.svcs[i].id] = &w.svcs[i]
+		}
+		w.registerEndpoints()
+	default:
+		return "bad-op"
+	}
+	old := w.ps
+	ps := model.NewPushContext()
+	ps.InitContext(w.env, old, &model.PushRequest{
+		ConfigsUpdated: sets.New(key),
+		Reason:         model.NewReasonStats(model.ConfigUpdate),
+	})
+	w.ps = ps
+	w.env.SetPushContext(ps)
+	return "ok"
+}
+
+// registerEndpoints: one endpoint per (hostname, namespace) key and port name, with an address that identifies the key.
+func (w *world) registerEndpoints() {
+	env := w.env
+	for _, k := range w.keys() {
+		var eps []*model.IstioEndpoint
+		seen := map[string]bool{}
+		for i := range w.svcs {
+			sp := &w.svcs[i]
+			if sp.hostname != k[0] || sp.ns != k[1] {
+				continue
+			}
+			for _, p := range sp.ports {
+				if seen[p.name] {
+					continue
+				}
+				seen[p.name] = true
+				eps = append(eps, &model.IstioEndpoint{
+					Addresses:       []string{w.keyAddr(k[0], k[1])},
+					ServicePortName: p.name,
+					EndpointPort:    uint32(p.num),
+					Namespace:       k[1],
+					HostName:        k[0],
+				})
+			}
+		}
+		env.EndpointIndex.UpdateServiceEndpoints(model.ShardKey{Cluster: "c1", Provider: "External"}, k[0], k[1], eps, false)
+	}
 }
